@@ -79,6 +79,7 @@ pub struct Events {
     pub sib_rejections: u64,
     pub rbp_max_bytes: u64,     // most bytes squeezed by one RejBoundedPoly call
     pub rnp_max_bytes: u64,     // most bytes squeezed by one RejNTTPoly call
+    pub rnp_max_reject_run: u64, // longest run of consecutive three-byte rejections in one RejNTTPoly call
     // rounding
     pub t_wrap_high: u64,       // keygen: A*s1 + s2 >= q before reduction
     pub t_wrap_low: u64,        // keygen: A*s1 + s2 < 0 before reduction
@@ -500,15 +501,24 @@ pub fn rej_ntt_poly(rho: &[u8]) -> Poly {
     let mut j = 0;
     let mut ctx = Xof::g(&[rho]);
     let mut used = 0u64;
+    let mut run = 0u64;
+    let mut max_run = 0u64;
     while j < 256 {
         let s = ctx.squeeze(3);
         used += 3;
         if let Some(v) = coeff_from_three_bytes(s[0], s[1], s[2]) {
             a[j] = v;
             j += 1;
+            run = 0;
+        } else {
+            run += 1;
+            max_run = max_run.max(run);
         }
     }
-    ev(|e| e.rnp_max_bytes = e.rnp_max_bytes.max(used));
+    ev(|e| {
+        e.rnp_max_bytes = e.rnp_max_bytes.max(used);
+        e.rnp_max_reject_run = e.rnp_max_reject_run.max(max_run);
+    });
     a
 }
 
